@@ -6,6 +6,8 @@
 // decls ::= decl|decl|...      decl ::= lo..hi (m.int) | b (m.bool) | a,b,c (m.intset)
 // post  ::= new <cons> | lin (eq|le|ne) c,c,.. xI,xJ,.. k | api (add|sub|mul) xI xJ
 // cons  ::= (eq|ne|lt|le|gt|ge)(<expr>,<expr>) | and(<cons>,<cons>) | or(<cons>,<cons>) | not(<cons>)
+//         | (andall|orall|allof|anyof)(<cons>,...)   the free functions and_all / or_all / all_of / any_of over a Vec<Constraint>;
+//           with no argument they return None: `new andall()` posts nothing (a nested empty combinator is not expressible)
 // expr  ::= xN | <int> | (add|sub|mul|mod)(<expr>,<expr>)       (public fluent methods, folding included)
 // entry ::= enum | first | min xN | max xN
 use selen::prelude::*;
@@ -45,10 +47,25 @@ pub fn parse_expr(s: &str, vars: &[VarId]) -> ExprBuilder {
     }
 }
 
+/// top-level constraint of `new`: None when and_all / or_all / all_of / any_of of an empty vector returned None
+pub fn parse_cons_opt(s: &str, vars: &[VarId]) -> Option<Constraint> {
+    let s = s.trim();
+    let (h, a) = head_args(s).expect("cons syntax");
+    let list = |a: &[&str]| -> Vec<Constraint> { a.iter().filter(|t| !t.trim().is_empty()).map(|t| parse_cons(t, vars)).collect() };
+    match h {
+        "andall" => selen::runtime_api::and_all(list(&a)),
+        "orall" => selen::runtime_api::or_all(list(&a)),
+        "allof" => selen::runtime_api::all_of(list(&a)),
+        "anyof" => selen::runtime_api::any_of(list(&a)),
+        _ => Some(parse_cons(s, vars)),
+    }
+}
+
 pub fn parse_cons(s: &str, vars: &[VarId]) -> Constraint {
     let s = s.trim();
     let (h, a) = head_args(s).expect("cons syntax");
     match h {
+        "andall" | "orall" | "allof" | "anyof" => parse_cons_opt(s, vars).expect("empty combinator nested in a tree"),
         "and" => parse_cons(a[0], vars).and(parse_cons(a[1], vars)),
         "or" => parse_cons(a[0], vars).or(parse_cons(a[1], vars)),
         "not" => parse_cons(a[0], vars).not(),
@@ -84,7 +101,7 @@ pub fn build(line: &str) -> Built {
         if p.is_empty() { continue; }
         let t: Vec<&str> = p.split_whitespace().collect();
         match t[0] {
-            "new" => { let c = parse_cons(t[1], &vars); m.new(c); }
+            "new" => { if let Some(c) = parse_cons_opt(t[1], &vars) { m.new(c); } }
             "lin" => {
                 let cs = crate::parse_list(t[2]);
                 let xs: Vec<VarId> = if t[3] == "-" { vec![] } else { t[3].split(',').map(|x| vars[var_ix(x)]).collect() };
